@@ -452,18 +452,10 @@ def resolveConflicts(actions, state=None):
             # resolved action from an earlier order / invocation
             prev_ainfo = state.resolved_ainfos.get(discriminator)
             if prev_ainfo is not None:
-                _, paction = prev_ainfo
-                basepath, baseinfo = paction['includepath'], paction['info']
-                includepath = action['includepath']
-                # if the new action conflicts with the resolved action then
-                # note the conflict, otherwise drop the action as it's
-                # effectively overriden by the previous action
-                if (
-                    includepath[: len(basepath)] != basepath
-                    or includepath == basepath
-                ):
-                    L = conflicts.setdefault(discriminator, [baseinfo])
-                    L.append(action['info'])
+                # every new action must be overridden by the action that
+                # was already executed, otherwise it is a conflict
+                _, action = prev_ainfo
+                rest = ainfos
 
             else:
                 output.append(ainfo)
